@@ -1,5 +1,468 @@
 package contractcourt
 
-import "verif/simcore"
+import (
+	"bytes"
+	"crypto/sha256"
+	"fmt"
 
-func zzRunC05(r *simcore.Run) { r.Harness("C05 not built yet") }
+	"github.com/btcsuite/btcd/btcutil/v2"
+	"github.com/btcsuite/btcd/wire/v2"
+	"github.com/lightningnetwork/lnd/channeldb"
+	"github.com/lightningnetwork/lnd/input"
+	"github.com/lightningnetwork/lnd/lnwallet"
+	"github.com/lightningnetwork/lnd/lnwallet/chainfee"
+	"github.com/lightningnetwork/lnd/sweep"
+
+	"verif/chansim"
+	"verif/simcore"
+)
+
+// zzRecSweeper records every input the real resolvers offer for sweeping.
+type zzRecSweeper struct {
+	inputs []input.Input
+	params []sweep.Params
+}
+
+func (s *zzRecSweeper) SweepInput(inp input.Input, p sweep.Params) (chan sweep.Result, error) {
+	s.inputs = append(s.inputs, inp)
+	s.params = append(s.params, p)
+	return make(chan sweep.Result, 1), nil
+}
+func (s *zzRecSweeper) RelayFeePerKW() chainfee.SatPerKWeight { return 253 }
+func (s *zzRecSweeper) UpdateParams(wire.OutPoint, sweep.Params) (chan sweep.Result, error) {
+	return make(chan sweep.Result, 1), nil
+}
+
+func zzResolverCfg(sw *zzRecSweeper, chanPoint wire.OutPoint) ResolverConfig {
+	return ResolverConfig{
+		ChannelArbitratorConfig: ChannelArbitratorConfig{
+			ChanPoint: chanPoint,
+			ChainArbitratorConfig: ChainArbitratorConfig{
+				Sweeper: sw,
+				Budget:  *DefaultBudgetConfig(),
+			},
+		},
+		Checkpoint: func(ContractResolver, ...*channeldb.ResolverReport) error { return nil },
+	}
+}
+
+var zzSweepScript = append([]byte{0x51, 0x20}, bytes.Repeat([]byte{0x17}, 32)...)
+
+// zzSpendInput builds the transaction the sweeper would build around one
+// offered input (sequence and locktime exactly as the input demands), lets
+// the input craft its own witness and runs the script interpreter against
+// the REAL previous output.
+func zzSpendInput(signer input.Signer, inp input.Input, prevOuts map[wire.OutPoint]*wire.TxOut) error {
+	tx := wire.NewMsgTx(2)
+	tx.AddTxIn(&wire.TxIn{PreviousOutPoint: inp.OutPoint(), Sequence: inp.BlocksToMaturity()})
+	if lt, ok := inp.RequiredLockTime(); ok {
+		tx.LockTime = lt
+	}
+	if ro := inp.RequiredTxOut(); ro != nil {
+		tx.AddTxOut(ro)
+	} else {
+		v := inp.SignDesc().Output.Value - 200
+		if v < 0 {
+			v = 0
+		}
+		tx.AddTxOut(&wire.TxOut{Value: v, PkScript: zzSweepScript})
+	}
+	fetcher, err := input.MultiPrevOutFetcher([]input.Input{inp})
+	if err != nil {
+		return fmt.Errorf("prev out fetcher: %w", err)
+	}
+	hc := zzSigHashes(tx, fetcher)
+	scr, err := inp.CraftInputScript(signer, tx, hc, fetcher, 0)
+	if err != nil {
+		return fmt.Errorf("CraftInputScript: %w", err)
+	}
+	tx.TxIn[0].Witness = scr.Witness
+	tx.TxIn[0].SignatureScript = scr.SigScript
+	return zzVerifyInput(tx, 0, prevOuts)
+}
+
+func zzOuts(tx *wire.MsgTx) map[wire.OutPoint]*wire.TxOut {
+	m := map[wire.OutPoint]*wire.TxOut{}
+	h := tx.TxHash()
+	for i, o := range tx.TxOut {
+		m[wire.OutPoint{Hash: h, Index: uint32(i)}] = o
+	}
+	return m
+}
+
+// zzRunC05: at sampled states of a chansim history every commitment that
+// could confirm (own, peer's current, peer's pending) is "confirmed" against a
+// reloaded copy of the node's database and every spend the node derives for
+// it is executed in the script interpreter.
+func zzRunC05(r *simcore.Run) {
+	cfg := chansim.DrawConfig(r.Tape)
+	mode := chansim.Mode{Cuts: r.Tape.CfgDraw(3) == 0, MaxSteps: 40 + 25*r.Tape.CfgDraw(3), MaxHtlcs: []int{4, 8, 14}[r.Tape.CfgDraw(3)]}
+	every := []int{6, 10, 16}[r.Tape.CfgDraw(3)]
+	if r.Tier == "thorough" {
+		every = []int{2, 4, 8}[r.Tape.CfgDraw(3)]
+	}
+	r.Arm = fmt.Sprintf("%s/cuts=%v", cfg.TypeName, mode.Cuts)
+	states := 0
+	n := 0
+	mode.OnEvent = func(s *chansim.Sim) {
+		n++
+		if n%every != 0 {
+			return
+		}
+		zzExamine(r, s)
+		states++
+	}
+	mode.OnFinish = func(s *chansim.Sim) {
+		zzExamine(r, s)
+		states++
+	}
+	s := chansim.NewSim(r, cfg, mode)
+	s.Run()
+	r.Add("states_examined", int64(states))
+	r.Nontrivial = states > 0 && r.Stats["script_validations"] > 0
+}
+
+func zzPreimages(s *chansim.Sim) map[[32]byte][32]byte {
+	m := map[[32]byte][32]byte{}
+	for x := 0; x < 2; x++ {
+		for _, u := range s.M.S[x].Log {
+			if u.Kind == chansim.UAdd {
+				m[u.Hash] = chansim.Preimage(u.PayNo)
+			}
+		}
+	}
+	return m
+}
+
+func zzExamine(r *simcore.Run, s *chansim.Sim) {
+	pre := zzPreimages(s)
+	for x := 0; x < 2; x++ {
+		o := 1 - x
+		zzOwnCommit(r, s, x, pre)
+		// peer's current commitment = what the peer would broadcast now
+		peerCur := s.P[o].Chan.State().LocalCommitment
+		if peerCur.CommitHeight > 0 && s.M.S[x].RemoteTail == s.M.S[o].LocalTail {
+			// the transaction is the peer's; balances and HTLC
+			// directions are read from OUR record of that commitment
+			mine := s.P[x].Chan.State().RemoteCommitment
+			zzRemoteCommit(r, s, x, peerCur.CommitTx, &mine, "current", pre)
+		}
+		// peer's pending commitment (signed by us, not yet revoked-into)
+		if tip, err := s.P[x].Chan.State().RemoteCommitChainTip(); err == nil && tip != nil {
+			c := tip.Commitment
+			zzRemoteCommit(r, s, x, c.CommitTx, &c, "pending", pre)
+			r.Count("probe_pending_remote_commit")
+		}
+	}
+}
+
+func zzSatFloor(m uint64) int64 { return int64(m / 1000) }
+
+// zzOwnCommit: force close on a reloaded copy.
+func zzOwnCommit(r *simcore.Run, s *chansim.Sim, x int, pre map[[32]byte][32]byte) {
+	st := s.P[x].Chan.State()
+	if st.LocalCommitment.CommitHeight == 0 {
+		return // placeholder signature on commitment 0 (no funding flow simulated)
+	}
+	fp := s.ForkParty(x)
+	defer fp.KV.Close()
+	who := fmt.Sprintf("%s own commitment height %d", fp.Name, st.LocalCommitment.CommitHeight)
+	sum, err := fp.Chan.ForceClose()
+	if err != nil {
+		r.Fail("force-close", "%s: ForceClose on the reloaded channel fails: %v", who, err)
+	}
+	ctx := sum.CloseTx
+	// 1. fully signed and valid against the funding output
+	fund := fp.Chan.FundingTxOut()
+	prevFund := map[wire.OutPoint]*wire.TxOut{ctx.TxIn[0].PreviousOutPoint: fund}
+	if err := zzVerifyInput(ctx, 0, prevFund); err != nil {
+		r.Fail("commit-invalid", "%s: the signed commitment does not validate against the funding output: %v", who, err)
+	}
+	r.Count("script_validations")
+	if fp.Chan.State().ChanType.IsTaproot() {
+		r.Count("probe_taproot_commit_keyspend")
+	}
+	lc := fp.Chan.State().LocalCommitment
+	if ctx.TxHash() != lc.CommitTx.TxHash() {
+		r.Fail("commit-invalid", "%s: ForceClose broadcasts %v, the stored commitment is %v", who, ctx.TxHash(), lc.CommitTx.TxHash())
+	}
+	res, err := sum.ContractResolutions.UnwrapOrErr(fmt.Errorf("no resolutions"))
+	if err != nil {
+		r.Fail("force-close", "%s: no contract resolutions: %v", who, err)
+	}
+	zzCheckResolutions(r, s, fp, who, ctx, &lc, res.CommitResolution, res.HtlcResolutions, true, pre)
+}
+
+// zzRemoteCommit: the peer's commitment confirms; recognised through the real
+// chain watcher on a reloaded copy.
+func zzRemoteCommit(r *simcore.Run, s *chansim.Sim, x int, tx *wire.MsgTx, c *channeldb.ChannelCommitment, which string, pre map[[32]byte][32]byte) {
+	fp := s.ForkParty(x)
+	defer fp.KV.Close()
+	who := fmt.Sprintf("%s vs peer's %s commitment height %d", fp.Name, which, c.CommitHeight)
+	breached := false
+	w, sub := zzNewWatcher(r, fp, func(*lnwallet.BreachRetribution) error { breached = true; return nil })
+	defer sub.Cancel()
+	if err := w.handleCommitSpend(zzSpendDetail(tx, 700000, fp.Chan.State().FundingOutpoint)); err != nil {
+		r.Fail("remote-close-not-recognised", "%s: chain watcher fails: %v", who, err)
+	}
+	if breached {
+		r.Fail("remote-close-not-recognised", "%s: an unrevoked commitment of the peer was classified as a breach", who)
+	}
+	var info *RemoteUnilateralCloseInfo
+	select {
+	case info = <-sub.RemoteUnilateralClosure:
+	default:
+		r.Fail("remote-close-not-recognised", "%s: no RemoteUnilateralClosure event was dispatched", who)
+	}
+	zzCheckResolutions(r, s, fp, who, tx, c, info.CommitResolution, info.HtlcResolutions, false, pre)
+}
+
+// zzCheckResolutions launches the real resolvers for one confirmed commitment
+// and validates every spend.
+func zzCheckResolutions(r *simcore.Run, s *chansim.Sim, fp *chansim.Party, who string, ctx *wire.MsgTx,
+	c *channeldb.ChannelCommitment, cr *lnwallet.CommitOutputResolution, hr *lnwallet.HtlcResolutions,
+	ours bool, pre map[[32]byte][32]byte) {
+
+	st := fp.Chan.State()
+	outs := zzOuts(ctx)
+	txid := ctx.TxHash()
+	chanPoint := st.FundingOutpoint
+	const height = 700000
+
+	// --- our balance output ------------------------------------------------
+	balSat := zzSatFloor(uint64(c.LocalBalance))
+	if cr != nil {
+		o, ok := outs[cr.SelfOutPoint]
+		if !ok {
+			r.Fail("resolution-index", "%s: commit resolution points at %v which is not an output of the confirmed transaction", who, cr.SelfOutPoint)
+		}
+		if o.Value != balSat {
+			r.Fail("claim-value", "%s: our commitment output is worth %d sat, our balance on that commitment is %d sat", who, o.Value, balSat)
+		}
+		sw := &zzRecSweeper{}
+		res := newCommitSweepResolver(*cr, height, chanPoint, zzResolverCfg(sw, chanPoint))
+		res.SupplementState(st)
+		if err := res.Launch(); err != nil {
+			r.Fail("resolver-launch", "%s: commit sweep resolver: %v", who, err)
+		}
+		if len(sw.inputs) != 1 {
+			r.Fail("resolver-launch", "%s: commit sweep resolver offered %d inputs", who, len(sw.inputs))
+		}
+		inp := sw.inputs[0]
+		if ours && inp.BlocksToMaturity() != uint32(st.LocalChanCfg.CsvDelay) {
+			r.Fail("csv-delay", "%s: delayed to-local sweep uses relative lock %d, our CSV delay is %d", who, inp.BlocksToMaturity(), st.LocalChanCfg.CsvDelay)
+		}
+		if err := zzSpendInput(fp.Signer, inp, outs); err != nil {
+			r.Fail("sweep-invalid-witness", "%s: sweep of our commitment output (%v) fails script validation: %v", who, inp.WitnessType(), err)
+		}
+		r.Count("script_validations")
+	} else {
+		// no output for us: only legitimate if it would be dust
+		owner := st.LocalChanCfg.DustLimit
+		if !ours {
+			owner = st.RemoteChanCfg.DustLimit
+		}
+		if btcutil.Amount(balSat) >= owner && balSat > 0 {
+			r.Fail("claim-value", "%s: we have a balance of %d sat (dust limit %d) but no output/resolution on the confirmed commitment", who, balSat, owner)
+		}
+		r.Count("probe_balance_trimmed")
+	}
+
+	// --- HTLCs -------------------------------------------------------------
+	nonDust := map[uint32]channeldb.HTLC{}
+	for _, h := range c.Htlcs {
+		if h.OutputIndex >= 0 {
+			nonDust[uint32(h.OutputIndex)] = h
+		}
+	}
+	seen := map[uint32]bool{}
+	htlcFor := func(op wire.OutPoint, what string) channeldb.HTLC {
+		if op.Hash != txid {
+			r.Fail("resolution-index", "%s: %s resolution spends %v, not the confirmed commitment", who, what, op)
+		}
+		h, ok := nonDust[op.Index]
+		if !ok {
+			r.Fail("resolution-index", "%s: %s resolution for output %d which is not a non-dust HTLC output", who, what, op.Index)
+		}
+		if seen[op.Index] {
+			r.Fail("resolution-index", "%s: two resolutions for HTLC output %d", who, op.Index)
+		}
+		seen[op.Index] = true
+		if outs[op].Value != zzSatFloor(uint64(h.Amt)) {
+			r.Fail("claim-value", "%s: HTLC output %d is worth %d sat, the HTLC amount is %d msat", who, op.Index, outs[op].Value, h.Amt)
+		}
+		return h
+	}
+	if hr != nil {
+		for i := range hr.OutgoingHTLCs {
+			res := hr.OutgoingHTLCs[i]
+			op := res.ClaimOutpoint
+			if res.SignedTimeoutTx != nil {
+				op = res.SignedTimeoutTx.TxIn[0].PreviousOutPoint
+			}
+			h := htlcFor(op, "outgoing")
+			if h.Incoming {
+				r.Fail("resolution-direction", "%s: timeout resolution for a received HTLC (output %d)", who, op.Index)
+			}
+			zzOutgoing(r, who, fp, st, res, h, outs, chanPoint, ours)
+		}
+		for i := range hr.IncomingHTLCs {
+			res := hr.IncomingHTLCs[i]
+			op := res.ClaimOutpoint
+			if res.SignedSuccessTx != nil {
+				op = res.SignedSuccessTx.TxIn[0].PreviousOutPoint
+			}
+			h := htlcFor(op, "incoming")
+			if !h.Incoming {
+				r.Fail("resolution-direction", "%s: success resolution for an offered HTLC (output %d)", who, op.Index)
+			}
+			p, ok := pre[h.RHash]
+			if !ok {
+				r.Harness("no preimage for htlc")
+			}
+			zzIncoming(r, who, fp, st, res, h, p, outs, chanPoint, ours)
+		}
+	}
+	for idx, h := range nonDust {
+		if !seen[idx] {
+			r.Fail("resolution-missing", "%s: non-dust HTLC output %d (incoming=%v amt=%d) has no resolution", who, idx, h.Incoming, h.Amt)
+		}
+	}
+	if len(nonDust) > 0 {
+		r.Count("probe_commit_with_htlcs")
+	}
+}
+
+// zzOutgoing: offered HTLC times out.
+func zzOutgoing(r *simcore.Run, who string, fp *chansim.Party, st *channeldb.OpenChannel, res lnwallet.OutgoingHtlcResolution,
+	h channeldb.HTLC, outs map[wire.OutPoint]*wire.TxOut, chanPoint wire.OutPoint, ours bool) {
+
+	sw := &zzRecSweeper{}
+	rs := newTimeoutResolver(res, 700000, h, st.ChanType, zzResolverCfg(sw, chanPoint))
+	rs.SupplementState(st)
+	if err := rs.Launch(); err != nil {
+		r.Fail("resolver-launch", "%s: timeout resolver: %v", who, err)
+	}
+	switch {
+	case len(sw.inputs) == 1:
+		inp := sw.inputs[0]
+		lt, _ := inp.RequiredLockTime()
+		if lt < h.RefundTimeout {
+			r.Fail("timeout-locktime", "%s: offered HTLC (expiry %d) is timed out with locktime %d", who, h.RefundTimeout, lt)
+		}
+		if err := zzSpendInput(fp.Signer, inp, outs); err != nil {
+			r.Fail("htlc-invalid-witness", "%s: timeout spend of offered HTLC output (%v) fails script validation: %v", who, inp.WitnessType(), err)
+		}
+		r.Count("script_validations")
+		r.Count("probe_timeout_via_sweeper")
+	case len(sw.inputs) == 0 && res.SignedTimeoutTx != nil:
+		// pre-anchor local commitment: the pre-signed second-level tx is broadcast as is
+		tx := res.SignedTimeoutTx
+		if tx.LockTime < h.RefundTimeout {
+			r.Fail("timeout-locktime", "%s: HTLC-timeout tx has locktime %d, expiry is %d", who, tx.LockTime, h.RefundTimeout)
+		}
+		if err := zzVerifyInput(tx, 0, outs); err != nil {
+			r.Fail("htlc-invalid-witness", "%s: signed HTLC-timeout transaction fails script validation: %v", who, err)
+		}
+		r.Count("script_validations")
+		r.Count("probe_timeout_presigned_tx")
+	default:
+		r.Fail("resolver-launch", "%s: timeout resolver offered %d inputs and has no signed timeout tx", who, len(sw.inputs))
+	}
+	if res.SignedTimeoutTx != nil {
+		zzSecondStage(r, who, fp, st, res.SignedTimeoutTx, res.ClaimOutpoint, &res.SweepSignDesc, res.CsvDelay, false)
+	}
+}
+
+// zzIncoming: received HTLC claimed with the preimage.
+func zzIncoming(r *simcore.Run, who string, fp *chansim.Party, st *channeldb.OpenChannel, res lnwallet.IncomingHtlcResolution,
+	h channeldb.HTLC, preimage [32]byte, outs map[wire.OutPoint]*wire.TxOut, chanPoint wire.OutPoint, ours bool) {
+
+	if sha256.Sum256(preimage[:]) != h.RHash {
+		r.Harness("preimage mismatch")
+	}
+	res.Preimage = preimage
+	sw := &zzRecSweeper{}
+	rs := newSuccessResolver(res, 700000, h, st.ChanType, zzResolverCfg(sw, chanPoint))
+	rs.SupplementState(st)
+	if err := rs.Launch(); err != nil {
+		r.Fail("resolver-launch", "%s: success resolver: %v", who, err)
+	}
+	switch {
+	case len(sw.inputs) == 1:
+		inp := sw.inputs[0]
+		if err := zzSpendInput(fp.Signer, inp, outs); err != nil {
+			r.Fail("htlc-invalid-witness", "%s: preimage spend of received HTLC output (%v) fails script validation: %v", who, inp.WitnessType(), err)
+		}
+		r.Count("script_validations")
+		r.Count("probe_success_via_sweeper")
+	case len(sw.inputs) == 0 && res.SignedSuccessTx != nil:
+		// pre-anchor local commitment: insert the preimage into the
+		// pre-signed HTLC-success transaction (BOLT 3 witness:
+		// 0 <remotesig> <localsig> <preimage> <script>)
+		tx := res.SignedSuccessTx.Copy()
+		if len(tx.TxIn[0].Witness) != 5 {
+			r.Fail("htlc-invalid-witness", "%s: signed HTLC-success tx has %d witness items", who, len(tx.TxIn[0].Witness))
+		}
+		tx.TxIn[0].Witness[3] = preimage[:]
+		if err := zzVerifyInput(tx, 0, outs); err != nil {
+			r.Fail("htlc-invalid-witness", "%s: signed HTLC-success transaction fails script validation: %v", who, err)
+		}
+		r.Count("script_validations")
+		r.Count("probe_success_presigned_tx")
+	default:
+		r.Fail("resolver-launch", "%s: success resolver offered %d inputs and has no signed success tx", who, len(sw.inputs))
+	}
+	if res.SignedSuccessTx != nil {
+		zzSecondStage(r, who, fp, st, res.SignedSuccessTx, res.ClaimOutpoint, &res.SweepSignDesc, res.CsvDelay, true)
+	}
+}
+
+// zzSecondStage: the delayed output of a second-level transaction, swept
+// after the CSV delay with the witness types the resolvers/nursery use.
+func zzSecondStage(r *simcore.Run, who string, fp *chansim.Party, st *channeldb.OpenChannel, second *wire.MsgTx,
+	claim wire.OutPoint, sd *input.SignDescriptor, csv uint32, success bool) {
+
+	outs := zzOuts(second)
+	if _, ok := outs[claim]; !ok {
+		r.Fail("resolution-index", "%s: second-level claim outpoint %v is not an output of the second-level tx %v", who, claim, second.TxHash())
+	}
+	if csv != uint32(st.LocalChanCfg.CsvDelay) {
+		r.Fail("csv-delay", "%s: second-level output is swept with delay %d, our CSV delay is %d", who, csv, st.LocalChanCfg.CsvDelay)
+	}
+	taproot := st.ChanType.IsTaproot()
+	final := st.ChanType.IsTaprootFinal()
+	lease := st.ChanType.HasLeaseExpiration() && st.IsInitiator
+	var wt input.StandardWitnessType
+	switch {
+	case success && final:
+		wt = input.TaprootHtlcAcceptedSuccessSecondLevelFinal
+	case success && taproot:
+		wt = input.TaprootHtlcAcceptedSuccessSecondLevel
+	case success && lease:
+		wt = input.LeaseHtlcAcceptedSuccessSecondLevel
+	case success:
+		wt = input.HtlcAcceptedSuccessSecondLevel
+	case final:
+		wt = input.TaprootHtlcOfferedTimeoutSecondLevelFinal
+	case taproot:
+		wt = input.TaprootHtlcOfferedTimeoutSecondLevel
+	case lease:
+		wt = input.LeaseHtlcOfferedTimeoutSecondLevel
+	default:
+		wt = input.HtlcOfferedTimeoutSecondLevel
+	}
+	var inp input.Input
+	if lease {
+		inp = input.NewCsvInputWithCltv(&claim, wt, sd, 700000, csv, st.ThawHeight)
+	} else {
+		inp = input.NewCsvInput(&claim, wt, sd, 700000, csv)
+	}
+	if err := zzSpendInput(fp.Signer, inp, outs); err != nil {
+		r.Fail("second-level-invalid-witness", "%s: sweep of the second-level output (%v) fails script validation: %v", who, wt, err)
+	}
+	r.Count("script_validations")
+	r.Count("probe_second_level_sweep")
+}
+
+var _ = simcore.ErrSimIO
